@@ -1043,6 +1043,14 @@ func (se *specEnv) call(n *SCall) Value {
 			se.fail("jsondecode of non-sequence")
 		}
 		return e.fromTerm(T, c.App("jsonDecode_"+sortName(T), sortOf(T), e.seqTerm(se.st, sq)), "jsondecode")
+	case "iszero":
+		// iszero(x): the zero-value test reflect.DeepEqual(x, T{}) performs on a
+		// struct value read from memory (uninterpreted)
+		sv, ok := se.eval(n.Args[0]).(*StructV)
+		if !ok || sv.Origin == nil {
+			se.fail("iszero of a value that is not a struct read from memory")
+		}
+		return boolV(c.App("isZero_"+smt.Sanitize(sv.Origin.Sort.String()), smt.Bool, sv.Origin))
 	case "pristine":
 		// pristine(p): p (a pointer, possibly inside an interface value) points to
 		// a variable of this call that still holds the zero value it was
